@@ -32,8 +32,8 @@ func init() {
 	registerProperty(&PropertyInfo{
 		ID:    "C20",
 		Title: "Highlighted fragments are faithful to the stored text",
-		Rules: []string{"C20.R1", "C20.R2", "C20.R3", "C20.R4", "C20.R5", "C20.R6"},
-		Decides: "six structural necessary conditions in package search/highlight: (R1) every FragmentFormatter emits the fragment as a telescoping sequence of slices of the fragment's own text - the first begins at Fragment.Start, each next one begins where the previous one ended, every return is reached with the last one ending at Fragment.End - so that stripping the markup leaves one contiguous piece of the original, and the formatter writes no field of a fragment or location; (R2) the bounds of each such slice are ordered (lo <= hi <= Fragment.End) by the comparisons that dominate it, taking Start <= End of one location / fragment as given - the no-panic clause inside the formatters; (R3) a location read from the ordered list is dereferenced only behind a nil test (MergeOverlapping nils merged entries in place); (R4) every Fragment is built over the caller's text itself, not a copy or a sub-slice (all offsets are absolute), and the highlighter hands that same text to the fragmenter; (R5) the highlighter adds a fragment to the result only behind `len(result) < num` and only when the result is empty or a scan over the whole result found no overlap with the candidate; (R6) in a fragmenter the lower limit of the backwards growth is re-bound to the End of the location just handled after every fragment, and every backwards step of the window start is guarded by a comparison with that limit. ",
+		Rules: []string{"C20.R1", "C20.R2", "C20.R3", "C20.R4", "C20.R5", "C20.R6", "C20.R7"},
+		Decides: "six structural necessary conditions in package search/highlight: (R1) every FragmentFormatter emits the fragment as a telescoping sequence of slices of the fragment's own text - the first begins at Fragment.Start, each next one begins where the previous one ended, every return is reached with the last one ending at Fragment.End - so that stripping the markup leaves one contiguous piece of the original, and the formatter writes no field of a fragment or location; (R2) the bounds of each such slice are ordered (lo <= hi <= Fragment.End) by the comparisons that dominate it, taking Start <= End of one location / fragment as given - the no-panic clause inside the formatters; (R3) a location read from the ordered list is dereferenced only behind a nil test (MergeOverlapping nils merged entries in place); (R4) every Fragment is built over the caller's text itself, not a copy or a sub-slice (all offsets are absolute), and the highlighter hands that same text to the fragmenter; (R5) the highlighter adds a fragment to the result only behind `len(result) < num` and only when the result is empty or a scan over the whole result found no overlap with the candidate; (R7) an existing location's End is overwritten only on the edge where the new value is larger, its Start only where it is smaller (merging overlapping locations extends a marked span, it never cuts one in the middle of a term); (R6) in a fragmenter the lower limit of the backwards growth is re-bound to the End of the location just handled after every fragment, and every backwards step of the window start is guarded by a comparison with that limit. ",
 		NotCovered: "the window arithmetic of the fragmenter (fragment size in runes, centring, what happens at multi-byte runes and at both ends of the text), that the best fragment contains a match, the fragment scorer, panics inside the fragmenter for adversarial locations (negative or beyond-the-text offsets need a relational value-range analysis over the rune loops that is out of reach), and that marked spans coincide with term occurrences beyond what R1/R2 imply (the marked slice is bounded by one location's Start and End).",
 		Assumptions: []string{"every TermLocation and Fragment satisfies Start <= End and Fragment.End <= len(Orig) (established by the analyzers and the fragmenter; not re-proved)"},
 	})
@@ -47,6 +47,8 @@ func init() {
 		Covers: "every store to Fragment.Orig in the module and the text argument of every Fragmenter.Fragment call"})
 	registerRule(&RuleInfo{ID: "C20.R5", Title: "best fragments: bounded by num, added only when overlapping none already chosen", Floor: 2, Run: ruleC20R5,
 		Covers: "every append to a []*Fragment in every implementation of highlight.Highlighter.BestFragments"})
+	registerRule(&RuleInfo{ID: "C20.R7", Title: "merging locations never shrinks one", Floor: 1, Run: ruleC20R7,
+		Covers: "every store to TermLocation.Start / End of an existing location in package search/highlight"})
 	registerRule(&RuleInfo{ID: "C20.R6", Title: "a fragment window never grows back over the previous location", Floor: 2, Run: ruleC20R6,
 		Covers: "every implementation of highlight.Fragmenter.Fragment: the limit variable and the backwards steps of the window start"})
 }
@@ -920,6 +922,43 @@ func ruleC20R6(c *Ctx) {
 		}
 		if n == 0 {
 			c.Undecided("fragmenter "+name, c.Pos(fn.Pos()), "no loop-carried limit taken from TermLocation.End found: shape not recognised")
+		}
+	}
+}
+
+// ---- R7 -----------------------------------------------------------------------------------
+
+// MergeOverlapping (and whatever else rewrites a location in place) may only extend it: a store
+// to End must sit behind a comparison that makes the new value the larger one, a store to Start
+// behind one that makes it the smaller one. Stores into a location allocated in the same function
+// (construction) are not judged.
+func ruleC20R7(c *Ctx) {
+	fStart := c.Field(pkgHighlight, "TermLocation", "Start")
+	fEndF := c.Field(pkgHighlight, "TermLocation", "End")
+	n := 0
+	for _, fn := range c.FuncsIn(pkgHighlight) {
+		for _, fv := range []*types.Var{fStart, fEndF} {
+			for _, st := range storesToField(fn, fv) {
+				fa := st.Addr.(*ssa.FieldAddr)
+				if isFreshLocal(fa.X) {
+					continue
+				}
+				n++
+				cur := "*" + accessPath(fa)
+				if accessPath(fa) == "" {
+					cur = "*v:" + fa.Name()
+				}
+				nv := symKey(st.Val)
+				var ok bool
+				if fv == fEndF {
+					ok = proveLE(fn, nil, cur, nv, st.Block(), 0)
+				} else {
+					ok = proveLE(fn, st.Val, nv, cur, st.Block(), 0)
+				}
+				key := fmt.Sprintf("rewrite #%d of a location's %s in %s only extends it", n, fv.Name(), FuncName(fn))
+				c.Check(ok, key, c.Pos(st.Pos()), "behind a comparison that orders the old and the new value",
+					"an existing location's "+fv.Name()+" is overwritten without a dominating comparison with its current value: a location nested in (or starting with) the previous one shrinks the merged span, and the mark ends in the middle of the outer term")
+			}
 		}
 	}
 }
